@@ -72,7 +72,7 @@ def run(ctx):
         rows += rr
         crashes += cc
     for case, how, out in crashes:
-        vlib.report_failure(ctx, case, {"failed": ["process-died:" + how], "output": out[-800:]}, case=case)
+        vlib.report_failure(ctx, case, {"failed": ["process-died:" + how], "output": out[:700]}, case=case)
     ctx.evals = len(rows)
     bad, drift = vlib.validate_trace(ctx, "C03Trace", rows, canary=canary, shard=5000, timeout=3000)
     for row, why in bad:
